@@ -18,7 +18,8 @@ From SC Require Import Base.Prelude Group.Exec Group.C17Judge Group.ExecLemmas G
   Group.ExecAwareProofs Group.ContractProofs
   Group.ExecPc Group.C17PJudge Group.ExecPcProofs Group.ExecPcClosed Group.ExecPcOneProofs Group.ExecShape
   Group.TraitGroup Group.TraitGroupJudge Group.TraitGroupProofs Group.TraitGroupPullProofs
-  Group.TraitGroupPullReduce.
+  Group.TraitGroupPullReduce Group.TraitGroupPullJudge Group.TraitGroupPullRet Group.TraitGroupPullFail
+  Group.TraitGroupPullRace.
 (* imported last: its pstate / pstep (the process model of executeEach) are the ones meant by the unqualified
    names below; the Pull model's are written TraitGroup.pstate / TraitGroup.pstep *)
 From SC Require Import Group.ExecProc Group.ExecProcProofs.
@@ -782,3 +783,52 @@ Example C17_nonvacuous_pull :
   p_ret st = Some (4%nat, 1) /\ w_saw (p_w st) = [-1; 4] /\ w_cancel (p_w st) = Some 4%nat /\
   w_live (p_w st) = [false; false].
 Proof. exact pull_onoff_example. Qed.
+
+(* ---- third wave, trait groups: the Pull judge's closed form is sound w.r.t. the Pull model ---- *)
+(* every case kind (unary, PullOnOff, PullBrightness): an observation that agrees with the model and
+   passes the guard satisfies the judge's closed-form predicate — messages sent, return step and error,
+   including after a failed Send and under Race.  The guard bounds the group at 3000 members (a failed
+   Send's canonical error 3000+k must not collide with a member's own error i+1). *)
+Theorem C17_trait_judge_sound : forall c,
+  tagrees c = true -> C17T_guard c = true -> C17T_ok c = true.
+Proof. exact trait_judge_sound. Qed.
+Print Assumptions C17_trait_judge_sound.
+
+Theorem C17_pull_judge_sends_sound : forall c,
+  tagrees c = true -> C17T_guard c = true -> C17T_ok_sends c = true.
+Proof. exact trait_judge_sound_partial. Qed.
+Print Assumptions C17_pull_judge_sends_sound.
+
+Theorem C17_pull_ok_split : forall c, C17T_ok c = C17T_ok_sends c && C17T_ok_ret c.
+Proof. exact C17T_ok_split. Qed.
+Print Assumptions C17_pull_ok_split.
+
+Theorem C17_pull_returns_by_contract : forall V reduce veqb ms eofs fail_at strategy (evs : list (pevent V)),
+  let st := pull reduce veqb ms fail_at strategy evs in
+  strategy <> 4 -> p_nondet st = false -> p_failed st = None -> has_parent evs = false ->
+  ret_by_contract ms eofs strategy evs =
+  (retZ V st, match p_ret st with Some (_, e) => perr eofs e | None => 0 end).
+Proof. exact pull_ret_by_contract. Qed.
+Print Assumptions C17_pull_returns_by_contract.
+
+Theorem C17_pull_returns_after_failed_send : forall V reduce veqb ms fail_at strategy,
+  members_ok ms = true -> strategy <> 6 -> forall evs : list (pevent V),
+  let st := pull reduce veqb ms fail_at strategy evs in
+  p_nondet st = false -> p_failed st <> None ->
+  exists f : nat,
+    fstep V fail_at (map (tr V) (p_sent st)) = Z.of_nat f /\
+    ret_after_failed_send ms fail_at strategy evs (Z.of_nat f) =
+      (retZ V st, match p_ret st with Some (_, e) => e | None => 0 end).
+Proof. exact pull_ret_after_failed_send. Qed.
+Print Assumptions C17_pull_returns_after_failed_send.
+
+Theorem C17_pull_returns_after_failed_send_race : forall V reduce veqb ms fail_at strategy,
+  strategy = 6 -> forall evs : list (pevent V),
+  let st := pull reduce veqb ms fail_at strategy evs in
+  p_nondet st = false -> p_failed st <> None ->
+  exists f : nat,
+    fstep V fail_at (map (tr V) (p_sent st)) = Z.of_nat f /\
+    ret_after_failed_send ms fail_at strategy evs (Z.of_nat f) =
+      (retZ V st, match p_ret st with Some (_, e) => e | None => 0 end).
+Proof. exact pull_ret_after_failed_send_race. Qed.
+Print Assumptions C17_pull_returns_after_failed_send_race.
